@@ -77,7 +77,7 @@ func initAllowed(path string) bool {
 	switch path {
 	case "unicode/utf8", "unicode", "strings", "bytes", "strconv", "sort", "slices", "maps",
 		"errors", "io", "io/fs", "internal/oserror", "path", "path/filepath", "internal/filepathlite", "bufio", "go/token",
-		"go/types", "go/ast", "go/constant", "go/scanner", "unicode/utf16", "math/bits", "internal/stringslite", "internal/bytealg", "cmp", "iter", "text/scanner", "context", "github.com/go-courier/logr", "github.com/octohelm/x/context", "github.com/octohelm/x/types":
+		"go/types", "go/ast", "go/constant", "go/scanner", "unicode/utf16", "math/bits", "internal/stringslite", "internal/bytealg", "cmp", "iter", "text/scanner", "context", "github.com/go-courier/logr", "github.com/octohelm/x/context", "github.com/octohelm/x/types", "github.com/octohelm/x/reflect":
 		return true
 	// the real parser, type checker and printer (harnesses that hand Go source to
 	// the code under test run them; the Execute scenarios keep the ParseFile /
